@@ -15,6 +15,7 @@ import (
 
 	"github.com/canopy-network/canopy/fsm"
 	"github.com/canopy-network/canopy/lib"
+	"github.com/canopy-network/canopy/lib/crypto"
 	"verif/core"
 	"verif/node"
 	"verif/txvar"
@@ -161,6 +162,84 @@ func runCase(t *testing.T, run *core.Run, name string, idx int, rng *rand.Rand) 
 	run.Sample(map[string]any{"case": name, "blocks": blocks, "small_blocks": idx%2 == 0, "generated": w.NTx})
 }
 
+// bigBlock: one height with more than 5000 transactions (the page size of the indexer's readers), committed and then served
+// from the archive: the served block must carry every transaction and re-validate on a fresh node.
+func bigBlock(t *testing.T, run *core.Run, name string, rng *rand.Rand) {
+	const nTx = 5003
+	w, err := node.NewWorld(rng, node.WorldOpts{Nodes: 2, GenesisVals: 3, Users: 4, UserFunds: 50_000_000_000, Weights: map[string]int{"send": 1},
+		Params: func(p *fsm.Params, r *rand.Rand) { p.Consensus.BlockSize = 8 << 20 },
+		Tweak:  func(c *lib.Config) { c.MempoolConfig.MaxTransactionCount, c.MempoolConfig.MaxTotalBytes = 20000, 64 << 20 }})
+	if err != nil {
+		t.Fatalf("%s: world: %v", name, err)
+	}
+	ch := w.Ch
+	defer ch.Close()
+	fail := func(kind string, h uint64, d map[string]any) {
+		d["case"], d["height"] = name, h
+		run.Violation(kind, "^"+name+"$", d)
+	}
+	if _, err := ch.Step(0, nil, nil); err != nil {
+		t.Fatalf("%s: first block: %v", name, err)
+	}
+	h := w.Height()
+	txs := make([][]byte, 0, nTx)
+	for i := 0; i < nTx; i++ {
+		from := w.Users[i%len(w.Users)]
+		to := crypto.NewAddressFromBytes(crypto.Hash([]byte(fmt.Sprintf("%s/%d", name, i)))[:20])
+		tx, e := fsm.NewSendTransaction(from, to, uint64(1+i), node.NetworkID, 1, 10000, h, fmt.Sprint(i))
+		if e != nil {
+			t.Fatal(e)
+		}
+		bz, _ := lib.Marshal(tx)
+		txs = append(txs, bz)
+	}
+	// hand the whole set to the mempool at once
+	if e := ch.Nodes[0].C.Mempool.HandleTransactions(txs...); e != nil {
+		t.Fatalf("%s: mempool: %v", name, e)
+	}
+	rec, err := ch.Step(0, nil, nil)
+	if err != nil {
+		fail("honest-proposal-rejected", h, map[string]any{"error": err.Error(), "which": "big block"})
+		return
+	}
+	included := len(rec.Block.Transactions)
+	run.Count("big_block_transactions_included", int64(included))
+	if included <= 5000 {
+		run.Inconclusive("%s: the big block holds only %d transactions (need > 5000)", name, included)
+		return
+	}
+	if _, err := ch.Step(1, nil, nil); err != nil {
+		t.Fatalf("%s: block after the big one: %v", name, err)
+	}
+	fresh, err := ch.AddNode()
+	if err != nil {
+		t.Fatalf("%s: fresh node: %v", name, err)
+	}
+	for hh := uint64(1); hh < w.Height(); hh++ {
+		qc, e := ch.Archive(int(hh%2), hh)
+		if e != nil || qc == nil {
+			fail("archive-cannot-serve-height", hh, map[string]any{"error": fmt.Sprint(e)})
+			return
+		}
+		blk := new(lib.Block)
+		if e := lib.Unmarshal(qc.Block, blk); e != nil || blk.BlockHeader == nil {
+			fail("archive-block-undecodable", hh, map[string]any{"error": fmt.Sprint(e)})
+			return
+		}
+		if uint64(len(blk.Transactions)) != blk.BlockHeader.NumTxs {
+			fail("archive-serves-truncated-block", hh, map[string]any{"header_num_txs": blk.BlockHeader.NumTxs, "transactions_served": len(blk.Transactions)})
+			return
+		}
+		if e := ch.Deliver(fresh, qc, nil, hh%2 == 0); e != nil {
+			fail("archive-block-rejected-by-fresh-node path=big-block", hh, map[string]any{"error": e.Error(), "transactions_served": len(blk.Transactions)})
+			return
+		}
+		run.Count("archive_heights_served", 1)
+	}
+	run.Eval(1)
+	run.Distinct(fmt.Sprintf("%s|%d", name, included))
+}
+
 func TestCheck(t *testing.T) {
 	run := core.Start(t, "C11", "exploration",
 		"seeded chains on two full nodes with alternating proposers: the mempool gets 4-17 generated transactions per block (valid, failing, oversize with a 2.5 kB block limit, "+
@@ -170,7 +249,13 @@ func TestCheck(t *testing.T) {
 	run.MinDistinct = 2
 	run.Assume("both nodes are in the same governance-vote mode (approve list); process-wide caches are purged when control passes between nodes of one test binary")
 	n := core.Pick(6, 120)
-	run.Sharded(n, func(i int) {
+	run.Sharded(n+1, func(i int) {
+		if i == n {
+			if name := "bigblock/0"; run.Want(name) {
+				bigBlock(t, run, name, run.Rand(name))
+			}
+			return
+		}
 		name := fmt.Sprintf("chain/%d", i)
 		if run.Want(name) {
 			runCase(t, run, name, i, run.Rand(name))
